@@ -273,6 +273,9 @@ def blocks_to_bytes(
             # to produce the the right number of extended arguments
             # https://github.com/python/cpython/blob/b2e5794870eb4728ddfaafc0f79a40299576434f/Python/wordcode_helpers.h#L22-L44
             for i in reversed(range(n_args)):
+                # Every code unit of the instruction maps to its line, like
+                # in the mapping parsed from the line table
+                line_mapping.offset_to_line[len(bytes_)] = instruction.line_number
                 bytes_.append(
                     dis.opmap[instruction.name] if i == 0 else dis.EXTENDED_ARG
                 )
